@@ -9,23 +9,23 @@ def show(title, f):
         r = f(); print(r)
     except BaseException as e:
         print(" EXC", type(e).__name__, e)
-show("relative import", lambda: parse_jaqal_string("from .mygates usepulses *\nregister q[2]\nprepare_all\nX q[0]\nmeasure_all\n", import_path="/tmp/probe/mods").native_gates.keys())
-show("relative missing", lambda: parse_jaqal_string("from .nonexist usepulses *\nregister q[2]\n", import_path="/tmp/probe/mods"))
+show("relative import", lambda: parse_jaqal_string("from .mygates usepulses *\nregister q[2]\nprepare_all\nX q[0]\nmeasure_all\n", import_path=__import__("os").path.join(__import__("os").path.dirname(__import__("os").path.abspath(__file__)), "mods")).native_gates.keys())
+show("relative missing", lambda: parse_jaqal_string("from .nonexist usepulses *\nregister q[2]\n", import_path=__import__("os").path.join(__import__("os").path.dirname(__import__("os").path.abspath(__file__)), "mods")))
 show("abs missing", lambda: parse_jaqal_string("from nonexist.mod usepulses *\nregister q[2]\n"))
 show("empty dot", lambda: parse_jaqal_string("from . usepulses *\nregister q[2]\n"))
 show("rel no path", lambda: parse_jaqal_string("from .mygates usepulses *\nregister q[2]\n"))
 show("abs module without jaqal_gates", lambda: parse_jaqal_string("from os usepulses *\nregister q[2]\n"))
 show("abs module json", lambda: parse_jaqal_string("from json usepulses *\nregister q[2]\n"))
 from jaqalpaq.emulator import run_jaqal_string
-show("run", lambda: run_jaqal_string("from .mygates usepulses *\nregister q[2]\nprepare_all\nX q[0]\nmeasure_all\n", import_path="/tmp/probe/mods").subcircuits[0].probability_by_str)
-show("run no register", lambda: run_jaqal_string("from .mygates usepulses *\nprepare_all\nmeasure_all\n", import_path="/tmp/probe/mods"))
+show("run", lambda: run_jaqal_string("from .mygates usepulses *\nregister q[2]\nprepare_all\nX q[0]\nmeasure_all\n", import_path=__import__("os").path.join(__import__("os").path.dirname(__import__("os").path.abspath(__file__)), "mods")).subcircuits[0].probability_by_str)
+show("run no register", lambda: run_jaqal_string("from .mygates usepulses *\nprepare_all\nmeasure_all\n", import_path=__import__("os").path.join(__import__("os").path.dirname(__import__("os").path.abspath(__file__)), "mods")))
 show("run empty", lambda: run_jaqal_string(""))
-show("run unknown gate", lambda: run_jaqal_string("from .mygates usepulses *\nregister q[2]\nprepare_all\nFoo q[0]\nmeasure_all\n", import_path="/tmp/probe/mods"))
-show("run wrong kind", lambda: run_jaqal_string("from .mygates usepulses *\nregister q[2]\nprepare_all\nX 1\nmeasure_all\n", import_path="/tmp/probe/mods"))
-show("run float to qubit index", lambda: run_jaqal_string("from .mygates usepulses *\nlet a 1.0\nregister q[2]\nprepare_all\nRx q[0] q[1]\nmeasure_all\n", import_path="/tmp/probe/mods"))
-show("run macro in par", lambda: run_jaqal_string("from .mygates usepulses *\nregister q[2]\nmacro m a { X a }\nprepare_all\n< m q[0] | m q[1] >\nmeasure_all\n", import_path="/tmp/probe/mods").subcircuits[0].probability_by_str)
-show("run loop neg", lambda: run_jaqal_string("from .mygates usepulses *\nregister q[2]\nprepare_all\nloop -1 { X q[0] }\nmeasure_all\n", import_path="/tmp/probe/mods").subcircuits[0].probability_by_str)
-show("run two regs", lambda: run_jaqal_string("from .mygates usepulses *\nregister q[2]\nregister r[2]\nprepare_all\nmeasure_all\n", import_path="/tmp/probe/mods"))
-show("run reg as gate arg", lambda: run_jaqal_string("from .mygates usepulses *\nregister q[2]\nprepare_all\nX q\nmeasure_all\n", import_path="/tmp/probe/mods"))
-show("run macro as arg", lambda: run_jaqal_string("from .mygates usepulses *\nregister q[2]\nmacro m a { X a }\nprepare_all\nX m\nmeasure_all\n", import_path="/tmp/probe/mods"))
-show("gate named like let", lambda: run_jaqal_string("from .mygates usepulses *\nlet X 1\nregister q[2]\nprepare_all\nX q[0]\nmeasure_all\n", import_path="/tmp/probe/mods").subcircuits[0].probability_by_str)
+show("run unknown gate", lambda: run_jaqal_string("from .mygates usepulses *\nregister q[2]\nprepare_all\nFoo q[0]\nmeasure_all\n", import_path=__import__("os").path.join(__import__("os").path.dirname(__import__("os").path.abspath(__file__)), "mods")))
+show("run wrong kind", lambda: run_jaqal_string("from .mygates usepulses *\nregister q[2]\nprepare_all\nX 1\nmeasure_all\n", import_path=__import__("os").path.join(__import__("os").path.dirname(__import__("os").path.abspath(__file__)), "mods")))
+show("run float to qubit index", lambda: run_jaqal_string("from .mygates usepulses *\nlet a 1.0\nregister q[2]\nprepare_all\nRx q[0] q[1]\nmeasure_all\n", import_path=__import__("os").path.join(__import__("os").path.dirname(__import__("os").path.abspath(__file__)), "mods")))
+show("run macro in par", lambda: run_jaqal_string("from .mygates usepulses *\nregister q[2]\nmacro m a { X a }\nprepare_all\n< m q[0] | m q[1] >\nmeasure_all\n", import_path=__import__("os").path.join(__import__("os").path.dirname(__import__("os").path.abspath(__file__)), "mods")).subcircuits[0].probability_by_str)
+show("run loop neg", lambda: run_jaqal_string("from .mygates usepulses *\nregister q[2]\nprepare_all\nloop -1 { X q[0] }\nmeasure_all\n", import_path=__import__("os").path.join(__import__("os").path.dirname(__import__("os").path.abspath(__file__)), "mods")).subcircuits[0].probability_by_str)
+show("run two regs", lambda: run_jaqal_string("from .mygates usepulses *\nregister q[2]\nregister r[2]\nprepare_all\nmeasure_all\n", import_path=__import__("os").path.join(__import__("os").path.dirname(__import__("os").path.abspath(__file__)), "mods")))
+show("run reg as gate arg", lambda: run_jaqal_string("from .mygates usepulses *\nregister q[2]\nprepare_all\nX q\nmeasure_all\n", import_path=__import__("os").path.join(__import__("os").path.dirname(__import__("os").path.abspath(__file__)), "mods")))
+show("run macro as arg", lambda: run_jaqal_string("from .mygates usepulses *\nregister q[2]\nmacro m a { X a }\nprepare_all\nX m\nmeasure_all\n", import_path=__import__("os").path.join(__import__("os").path.dirname(__import__("os").path.abspath(__file__)), "mods")))
+show("gate named like let", lambda: run_jaqal_string("from .mygates usepulses *\nlet X 1\nregister q[2]\nprepare_all\nX q[0]\nmeasure_all\n", import_path=__import__("os").path.join(__import__("os").path.dirname(__import__("os").path.abspath(__file__)), "mods")).subcircuits[0].probability_by_str)
